@@ -1262,6 +1262,23 @@ func (k *core) checkExitOnFreshScan(rule string) {
 										if cst, ok := rv.(*ssa.Const); ok && cst.Value != nil && cst.Value.ExactString() == "true" {
 											okExit = true
 										}
+										// `return idx >= 0` with idx the joined result of an index search (the slot found,
+										// or -1): on this exit idx is the loop's own (non-negative) index
+										if cmp, ok := retVals(ret)[0].(*ssa.BinOp); ok {
+											if ph, isPhi := cmp.X.(*ssa.Phi); isPhi && ph.Block() == tgt {
+												for pi, pr := range tgt.Preds {
+													if pr != from {
+														continue
+													}
+													if n, isC := constInt(cmp.Y); isC && isForwardRangeIndex(ph.Edges[pi]) {
+														switch {
+														case cmp.Op == token.GEQ && n <= 0, cmp.Op == token.GTR && n < 0, cmp.Op == token.NEQ && n < 0:
+															okExit = true
+														}
+													}
+												}
+											}
+										}
 										if exitCond != nil && rv == exitCond && exitVal {
 											okExit = true
 										}
